@@ -751,7 +751,18 @@ def replay(case):
         ref = run_scenario(sc, cfgs, d)
         dim = case["dimension"]
         if dim == "warm-process":
-            got = run_scenario(sc, cfgs, d, reset=False)
+            # the worker re-runs every scenario in a process whose caches earlier scenarios have filled; the replay
+            # re-runs this one scenario several times without a reset so that bounded caches reach their limits too
+            out = []
+            for _ in range(8):
+                got = run_scenario(sc, cfgs, d, reset=False)
+                for part in sorted(set(ref) | set(got)):
+                    if ref.get(part) != got.get(part):
+                        for fld in diff_fields(part, ref.get(part), got.get(part)):
+                            stream = "snapshot" if part.startswith("snap:") else (part.split(":", 1)[1] if ":" in part else part)
+                            if ("%s:%s:%s" % (dim, stream, fld), "differs") not in out:
+                                out.append(("%s:%s:%s" % (dim, stream, fld), "differs"))
+            return out
         elif dim == "hashseed":
             return []  # needs another process: re-run the check
         else:
